@@ -103,8 +103,42 @@ Proof.
   apply negb_false_iff in S. apply Nat.leb_gt in D. apply cat_inj; auto. lia.
 Qed.
 
+Lemma fld_eqb_eq a b : fld_eqb a b = true <-> a = b.
+Proof.
+  destruct a, b; simpl; split; intro E; try discriminate; try (apply String.eqb_eq in E; congruence);
+    injection E as ->; apply String.eqb_refl.
+Qed.
+
+Lemma flds_eqb_eq a b : flds_eqb a b = true <-> a = b.
+Proof. apply list_eqb_spec, fld_eqb_eq. Qed.
+
+(** outside the exact guard of C11-F4 a pre-image determines its writes *)
+Lemma collide_inj a b : collide a b = false -> cat a = cat b -> a = b.
+Proof.
+  unfold collide. intros G E. rewrite E, String.eqb_refl in G. simpl in G.
+  apply negb_false_iff in G. now apply flds_eqb_eq.
+Qed.
+
+Lemma collide_intro a b : cat a = cat b -> a <> b -> collide a b = true.
+Proof.
+  intros E N. unfold collide. rewrite E, String.eqb_refl. simpl. apply negb_true_iff.
+  destruct (flds_eqb a b) eqn:F; auto. exfalso. apply N. now apply flds_eqb_eq.
+Qed.
+
+Lemma collide_refl a : collide a a = false.
+Proof. unfold collide. rewrite String.eqb_refl. simpl. apply negb_false_iff. now apply flds_eqb_eq. Qed.
+
+(** a collision needs a shift: the exact guard lies inside the structural one *)
+Theorem collide_needs_shift a b : collide a b = true -> guard_shift a b = true.
+Proof.
+  intro C. destruct (guard_shift a b) eqn:G; auto. exfalso.
+  unfold collide in C. apply andb_true_iff in C as [E N]. apply String.eqb_eq in E.
+  apply (no_boundary_shift _ _ G) in E. subst b. apply negb_true_iff in N.
+  assert (T : flds_eqb a a = true) by now apply flds_eqb_eq. congruence.
+Qed.
+
 Theorem F4_refuted :
-  exists a b, guard_shift a b = true /\ cat a = cat b /\ a <> b.
+  exists a b, collide a b = true /\ cat a = cat b /\ a <> b.
 Proof.
   exists [FV "v1"; FV "1"; FV "v2"; FV "v22"], [FV "v1"; FV "1v2"; FV "v2"; FV "2"].
   splits; [reflexivity | reflexivity | discriminate].
@@ -219,12 +253,13 @@ Qed.
     fresh evaluation of it yields (without re-validation on a hit: it is allowed
     with the same result). *)
 Definition compatible (l : list areq) : Prop :=
-  forall a b k r, In a l -> In b l -> a_key a = Some k -> a_key b = Some k ->
+  forall a b k r, In a l -> In b l -> a_key a = Some k -> a_key b = Some k -> a_store a = true ->
                   fst (a_fresh a) = OAllow r -> a_recheck b r = fst (a_fresh b).
 
-(** cache invariant: every entry is the fresh result of an earlier request with that key *)
+(** cache invariant: every entry is the fresh result of an earlier, storing request with that key *)
 Definition backed (seen : list areq) (c : cache) : Prop :=
-  forall k r, lookup k c = Some r -> exists a, In a seen /\ a_key a = Some k /\ fst (a_fresh a) = OAllow r.
+  forall k r, lookup k c = Some r ->
+    exists a, In a seen /\ a_key a = Some k /\ fst (a_fresh a) = OAllow r /\ a_store a = true.
 
 Lemma lookup_cons {A} k k' (v : A) c :
   lookup k ((k', v) :: c) = if String.eqb k k' then Some v else lookup k c.
@@ -235,14 +270,14 @@ Lemma aexec_backed seen c a :
 Proof.
   intros B k r L. unfold aexec in L.
   assert (Old : forall k r, lookup k c = Some r ->
-            exists a0, In a0 (seen ++ [a]) /\ a_key a0 = Some k /\ fst (a_fresh a0) = OAllow r).
-  { intros k0 r0 L0. destruct (B k0 r0 L0) as (a0 & I & K & F). exists a0. splits; auto.
+            exists a0, In a0 (seen ++ [a]) /\ a_key a0 = Some k /\ fst (a_fresh a0) = OAllow r /\ a_store a0 = true).
+  { intros k0 r0 L0. destruct (B k0 r0 L0) as (a0 & I & K & F & St). exists a0. splits; auto.
     apply in_or_app; auto. }
   destruct (a_key a) as [ka|] eqn:K.
   - destruct (lookup ka c) as [r0|] eqn:Lk; simpl in L; auto.
     destruct (a_fresh a) as [o n] eqn:F. simpl in L.
     destruct o as [r1| |]; simpl in L; auto.
-    destruct (a_store a); simpl in L; auto.
+    destruct (a_store a) eqn:Sa; simpl in L; auto.
     destruct (String.eqb_spec k ka) as [->|N]; auto.
     injection L as <-. exists a. splits; auto.
     + apply in_or_app; right; left; reflexivity.
@@ -260,7 +295,7 @@ Proof.
   - unfold aexec in X. destruct (a_key a) as [k|] eqn:K.
     + destruct (lookup k c) as [r|] eqn:L.
       * injection X as <- <-. simpl.
-        destruct (B k r L) as (a0 & I & K0 & F0).
+        destruct (B k r L) as (a0 & I & K0 & F0 & S0).
         apply (C a0 a k r); auto.
         -- apply in_or_app; auto.
         -- apply in_or_app; right; left; reflexivity.
@@ -367,7 +402,7 @@ Definition compatible_steps (fx : fixes) (H : string -> string) (w : world) (h :
 
 Lemma compatible_steps_areq fx H w h : compatible_steps fx H w h -> compatible (map (areq_of fx H w) h).
 Proof.
-  intros C a b k r Ia Ib Ka Kb Fa.
+  intros C a b k r Ia Ib Ka Kb _ Fa.
   apply in_map_iff in Ia as (sa & <- & Ia). apply in_map_iff in Ib as (sb & <- & Ib).
   apply (C sa sb k r); auto.
 Qed.
@@ -431,7 +466,10 @@ Lemma auth_eqb_eq a b : auth_eqb a b = true -> a = b.
 Proof.
   destruct a, b; simpl; intro E; try discriminate; auto;
     repeat (apply andb_true_iff in E as [E ?]);
-    repeat match goal with X : String.eqb _ _ = true |- _ => apply String.eqb_eq in X end; congruence.
+    repeat match goal with
+           | X : String.eqb _ _ = true |- _ => apply String.eqb_eq in X
+           | X : list_eqb String.eqb _ _ = true |- _ => apply strs_eqb_eq in X
+           end; congruence.
 Qed.
 
 Lemma ep_eqb_eq a b : ep_eqb a b = true -> a = b.
@@ -596,7 +634,10 @@ Proof.
     (mk_step w_ctx_shift (q_sub "alice" [("X-V1", "1"); ("X-V2", "v22")] []) ["X-Val"] ["v1"; "v2"]),
     (mk_step w_ctx_shift (q_sub "alice" [("X-V1", "1v2"); ("X-V2", "2")] []) ["X-Val"] ["v1"; "v2"]).
   splits.
-  - intro H. cbv -[String.length Nat.eqb Nat.leb negb orb andb]. rewrite !Nat.eqb_refl. reflexivity.
+  - intro H. unfold g_F4. cbn [exists_pair existsb]. apply orb_true_iff. left. apply orb_true_iff. left.
+    apply orb_true_iff. left. unfold p_F4, both. apply andb_true_iff. split; [reflexivity|].
+    apply orb_true_iff. left. apply collide_intro; [reflexivity|].
+    unfold opt_fields. simpl. intro E. injection E. discriminate.
   - split; simpl; apply Permutation_refl.
   - split; simpl; apply Permutation_refl.
   - intro H. eapply not_transparent_steps; try reflexivity. discriminate.
